@@ -23,6 +23,7 @@ import (
 	"encoding/binary"
 	"fmt"
 	"net"
+	"slices"
 	"sort"
 	"strings"
 	"testing"
@@ -403,7 +404,15 @@ func TestVerifC02Noise(t *testing.T) {
 	lengths, shorts := c02Lengths, c02ShortPatterns
 	if thorough {
 		lengths = append(append([]int{}, lengths...), c02LengthsThorough...)
+		// dense around one and two maximal frames
+		for d := -20; d <= 20; d++ {
+			lengths = append(lengths, MaxPlaintextLength+d)
+		}
+		for d := -3; d <= 3; d++ {
+			lengths = append(lengths, 2*MaxPlaintextLength+d)
+		}
 		sort.Ints(lengths)
+		lengths = slices.Compact(lengths)
 		shorts = append(append([][]int{}, shorts...), c02ShortPatternsThorough...)
 	}
 	r.Bounds["L"] = lengths
